@@ -34,12 +34,13 @@ def _tlc_verdict(rep, label, res):
 def record_key(case, obs, what):
     """Stable identifier of a record-layer divergence: encoding, first differing observable, field kinds."""
     enc = case["enc"]
+    if obs and obs.get("width_class") and obs.get("streamlen") != sum(r["framelen"] for r in case["recs"]):
+        return "ascii:width:" + obs["width_class"]      # a value printed wider than its fixed ASCII field
     kinds = []
     for rec in case["recs"]:
         for f in rec["fields"]:
-            tag = f["k"] if f["vc"] == "typ" else "%s.%s" % (f["k"], f["vc"])
-            if tag not in kinds:
-                kinds.append(tag)
+            if f["k"] not in kinds:
+                kinds.append(f["k"])
     return "record:%s:%s:%s" % (enc, what, "+".join(kinds) or "empty")
 
 
@@ -49,7 +50,7 @@ def check_record_case(case, seed):
     out = []
     if obs is None:
         for k, t in problems:
-            out.append((k, t, {"direction": "replay", "layer": "record", "case": case, "seed": seed}))
+            out.append((k, t, {"direction": "replay", "layer": "record", "case": case, "case_seed": seed}))
         return out
     exp = {"recs": [{"head": r["head"], "tail": r["tail"], "len": r["len"], "framelen": r["framelen"], "calls": r["calls"]}
                     for r in case["recs"]],
@@ -63,9 +64,9 @@ def check_record_case(case, seed):
 
         what = _re.sub(r"\[\d+\]", "", what)
         out.append((record_key(case, obs, what), "real record diverges from CcccRecord: %s" % d,
-                    {"direction": "replay", "layer": "record", "case": case, "observed": obs, "first_difference": d, "seed": seed}))
+                    {"direction": "replay", "layer": "record", "case": case, "observed": obs, "first_difference": d, "case_seed": seed}))
     for k, t in problems:
-        out.append((k, t, {"direction": "replay", "layer": "record", "case": case, "observed": obs, "seed": seed}))
+        out.append((k, t, {"direction": "replay", "layer": "record", "case": case, "observed": obs, "case_seed": seed}))
     return out
 
 
@@ -74,15 +75,16 @@ def _nfields(case):
 
 
 def _tags(case):
-    return {(case["enc"], f["k"], f["vc"]) for r in case["recs"] for f in r["fields"]}
+    return {(case["enc"], f["k"]) for r in case["recs"] for f in r["fields"]}
 
 
 def run_records(rep, thorough, seed):
     # exhaustive: laws of the record machine
     for cfg in (["CcccRecord_mc_thorough.cfg"] if thorough else ["CcccRecord_mc.cfg"]) + ["CcccRecord_mc2.cfg"]:
-        res = tlc.run("CcccRecord_mc", cfg, MODDIR, want_prints=False, timeout=3000)
+        cov = cfg == "CcccRecord_mc2.cfg"       # -coverage doubles the cost; non-vacuity is read off the small config
+        res = tlc.run("CcccRecord_mc", cfg, MODDIR, want_prints=False, timeout=3000, coverage=cov)
         _tlc_verdict(rep, "exhaustive:" + cfg, res)
-        never = [a for a in REC_ACTIONS if res.coverage.get(a, (0, 0))[1] == 0]
+        never = [a for a in REC_ACTIONS if res.coverage.get(a, (0, 0))[1] == 0] if cov else []
         if never:
             raise tlc.MachineryError("vacuous: record actions never taken in %s: %s" % (cfg, never))
     # emission: every case executed on the real classes
@@ -105,9 +107,9 @@ def run_records(rep, thorough, seed):
             if sample is None and _nfields(case) == 3:
                 sample = case
             for key, text, payload in found:
-                if key.startswith("record:asc:") and isinstance(payload.get("observed"), dict):
+                if key.startswith("ascii:width:"):
                     pass
-                if _nfields(case) == 1:
+                elif _nfields(case) == 1:
                     atomic.setdefault(next(iter(_tags(case))), key)
                 else:
                     expl = [atomic[t] for t in sorted(_tags(case)) if t in atomic]
@@ -118,6 +120,23 @@ def run_records(rep, thorough, seed):
                    "every record stream TLC enumerates is written by the real Binary/AsciiRecordWriter, measured by an independent "
                    "frame parser, and read back by the real reader with the same, a shorter and a longer call sequence; "
                    "non-trivial = at least one field")
+    # code -> spec: long random histories recorded from the real writers, validated by TLC
+    traces = G.record_traces(300 if thorough else 80, 4, 40 if thorough else 25, seed)
+    bad, stats = tracecheck.validate("CcccRecord_trace", "CcccRecord_trace.cfg", MODDIR, traces, timeout=3000)
+    rep.add_tlc("trace-validation:records", stats["tlc"])
+    rep.add_traces("record-writer-histories", len(traces), sum(len(t["ev"]) for t in traces),
+                   "seeded random rw* histories (<= 4 records x <= 25/40 fields of random kind, width, length, shape) run on the "
+                   "real writers; counter and buffered payload after every call and the measured frame at every close must be "
+                   "a step of CcccRecord")
+    for b in bad:
+        ev = b["trace"]["ev"]
+        k = b["matched"]
+        nxt = ev[k] if k < len(ev) else {}
+        a = nxt.get("a", {})
+        key = atomic.get((b["trace"].get("enc"), a.get("k"))) or "trace:record:%s:%s" % (b["trace"].get("enc"), a.get("n0", "?"))
+        rep.violation(key, "recorded writer history is not a behaviour of CcccRecord at event %d (%s): %s" % (
+            k + 1, json.dumps(a), json.dumps(b.get("mismatch", {}))[:300]),
+            {"direction": "trace", "layer": "record", "trace": b["trace"], "matched": k})
     if sample:
         rep.sample({"kind": "record-case", "enc": sample["enc"], "fields": [[f["k"], f["c"], f["n"], f["w"]] for f in sample["recs"][0]["fields"]],
                     "expected": {k: sample["recs"][0][k] for k in ("head", "tail", "len", "framelen")}})
@@ -127,6 +146,7 @@ def run(rep, tier, seed):
     thorough = tier == "thorough"
     armi_ready()
     tlc.sany("CcccRecord_mc", MODDIR)
+    tlc.sany("CcccRecord_trace", MODDIR)
     run_records(rep, thorough, seed)
     rep.exhaustive = True
 
@@ -134,7 +154,7 @@ def run(rep, tier, seed):
 def replay(payload):
     armi_ready()
     if payload.get("layer") == "record":
-        found = check_record_case(payload["case"], payload.get("seed", 0))
+        found = check_record_case(payload["case"], payload.get("case_seed", 0))
         for key, text, _ in found:
             print(key, "::", text)
         print("diverges" if found else "no divergence: case conforms")
